@@ -10,7 +10,7 @@ import itertools
 from vlib import monitors, subject
 
 PROPERTY = 'C17'
-RULE = ('texts over {a, b, A, blank, ", e-acute, cyrillic zhe} exhaustively to '
+RULE = ('texts over {a, b, A, blank, ", e-acute, cyrillic zhe, ?, U+1D11E} exhaustively to '
         'length 3 (quick) / 4 (thorough), sampled to length 300; all '
         'positions and counts from -2 to len+3; replacement and search texts; '
         'numbers and booleans passed as text; LEN, LEFT, RIGHT, MID, FIND, '
@@ -33,7 +33,7 @@ ANCHOR_FUNCS = {'xlcalculator/xlfunctions/text.py': [
     'TRIM', 'EXACT', 'CONCAT', 'CONCATENATE']}
 TIMEOUT = {'quick': 600, 'thorough': 3000}
 
-ALPHA = ['a', 'b', 'A', ' ', '"', 'é', 'ж']
+ALPHA = ['a', 'b', 'A', ' ', '"', 'é', 'ж', '?', '𝄞']
 ERR = 'error'
 
 
@@ -243,7 +243,8 @@ def run(ctx):
         mine.append(''.join(rng.choice(ALPHA + ['a', 'b', ' ']) for _ in
                             range(L)))
     repl = ['', 'X', 'ab', ' "']
-    finds = ['a', 'b', 'A', 'ab', ' ', '', 'ba', 'é', 'aa']
+    finds = ['a', 'b', 'A', 'ab', ' ', '', 'ba', 'é', 'aa', '?', '*', '~',
+             'a?', '~a', '?a', '𝄞', 'a*']
     for s in mine:
         n = len(s)
         tc = text_class(s)
